@@ -134,7 +134,32 @@ func genCompareCase(prop, tier string, r *rand.Rand) *Case {
 	default:
 		right = Derive(r, left, o)
 	}
-	if r.IntN(10) == 0 {
+	nearTwin := false
+	if r.IntN(6) == 0 {
+		// two candidates for one individual whose scores differ in the
+		// seventh decimal, and nothing else that scores alike: the original
+		// under another pointer and without identifiers (it can only be found
+		// by comparing) and, in front of it, a twin whose date is one day
+		// off. Close is not a tie.
+		lg := GenGraph(r, GraphOpts{People: 1 + r.IntN(2), DeathProb: 0.5, BaseYear: 1800, Span: 150, PtrPrefix: "L"})
+		rg := GenGraph(r, GraphOpts{People: r.IntN(2), DeathProb: 0.5, BaseYear: 1800, Span: 150, PtrPrefix: "R"})
+		l := lg.People[0]
+		l.UIDs, l.FSIDs = nil, nil
+		exact := fmt.Sprintf("%d %s %d", 1+r.IntN(27), pick(r, months), 1800+r.IntN(150))
+		l.Events = []Event{{Tag: "BIRT", Date: exact}}
+		p := *l
+		p.Ptr = "Q1"
+		p.Names = append([]string(nil), l.Names...)
+		p.Events = append([]Event(nil), l.Events...)
+		p.FamS, p.FamC = nil, nil
+		t := p
+		t.Ptr = "T9"
+		t.Events = []Event{{Tag: "BIRT", Date: shiftOneDay(exact)}}
+		rg.People = append([]*Person{&t, &p}, rg.People...)
+		left, right = lg, rg
+		nearTwin = true
+	}
+	if r.IntN(10) == 0 && !nearTwin {
 		left, right = right, left
 	}
 	// decodable oddities: two records with one pointer, records without any
@@ -155,6 +180,10 @@ func genCompareCase(prop, tier string, r *rand.Rand) *Case {
 		Jobs:      pick(r, []int{0, 1, 2, 2, 3, 3, 8, 16}),
 		MinWS:     pick(r, []float64{-1, -1, -1, 0, 0.9, 1}),
 		PreferPtr: pick(r, []float64{-1, -1, 0, 1}),
+	}
+	if nearTwin {
+		c.Compare.Jobs = pick(r, []int{2, 3, 3, 8})
+		c.Compare.MinWS = -1
 	}
 	if r.IntN(6) == 0 {
 		// lists that are only a part of their documents
